@@ -227,6 +227,9 @@ func compare(k *mon.Case, s *spend, family, flagClass, mutation string) *result 
 	err, stepErr := runBtcd(s, useCache, &m)
 	res.btcdErr = err
 	refOK := res.refErr == ""
+	if res.tr.ValidNonDER {
+		k.Count("sigcheck.verified-only-by-lax-parsing", 1)
+	}
 	if (err == nil) != refOK {
 		at := "end"
 		if res.refErr != "" && res.tr.LastOp >= 0 {
